@@ -375,6 +375,9 @@ func (f *Frame) shift(in ssa.Instruction, op token.Token, x, y Val, yin ssa.Valu
 	if y.Big != nil {
 		cy = y.Big
 	}
+	if cy == nil && ysigned && in != nil {
+		f.safetyOblig("negative-shift", in, app(">=", y.S, "0"))
+	}
 	if cy != nil && cy.Sign() >= 0 && cy.IsInt64() && cy.Int64() < 512 {
 		k := int(cy.Int64())
 		if op == token.SHR {
